@@ -80,7 +80,8 @@ def gen(rng, tier):
            'admin_mode': rng.choice(['development', 'production']),
            'read_only': rng.random() < 0.5,
            'nadmin': rng.randrange(0, 3),
-           'coroutine': rng.random() < 0.6}
+           'coroutine': rng.random() < 0.6,
+           'async_handlers': rng.random() < 0.4}
     attempts = [gen_payload(rng) for _ in range(rng.randrange(2, 7))]
     app = []
     npeers = rng.randrange(2, 4)
@@ -110,9 +111,16 @@ def gen(rng, tier):
             # namespace nobody is connected to any more
             app.append(['leave_ghost', rng.choice(NSS + ['/void']),
                         rng.choice(['r1', 'r2'])])
-        elif k < 0.55:
+        elif k < 0.50:
             app.append(['event', p, ns, 'T%d' % tok,
                         rng.choice([None, 1, 9]), rng.random() < 0.3])
+        elif k < 0.55:
+            # several events of one client in one polling payload; their
+            # handlers use the server (emit to a room, leave / enter it)
+            app.append(['burst', p, ns,
+                        [[rng.choice(['shout', 'leave', 'join', 'ev']),
+                          'B%d_%d' % (tok, j), rng.choice([None, 2])]
+                         for j in range(rng.randrange(2, 5))]])
         elif k < 0.75:
             app.append(['emit', ns, rng.choice([None, 'r1', 'r2',
                                                 ['sidof', p]]),
@@ -181,9 +189,19 @@ def run(case):
         return inst
     v = inst['v']
     # transparency: per application peer, the traces are equal
+    # with admins connected the reports about every event are real sends
+    # that suspend: work the application left running in the background (a
+    # handler's fire-and-forget emit, concurrent handlers of one payload)
+    # may be overtaken differently than on the plain server.  Such runs are
+    # compared without regard to order; with no admin connected the
+    # instrumented server must not even shift the schedule.
+    unordered = cfg['nadmin'] > 0 and any(o[0] == 'burst'
+                                          for o in case['app'])
     for p in sorted(set(plain['traces']) | set(inst['traces']), key=str):
         a = plain['traces'].get(p, [])
         b = inst['traces'].get(p, [])
+        if unordered:
+            a, b = sorted(a, key=repr), sorted(b, key=repr)
         if a != b:
             i = 0
             while i < min(len(a), len(b)) and a[i] == b[i]:
@@ -213,7 +231,8 @@ def run_twin(case, cfg, instrumented):
 def _run_twin(case, cfg, instrumented, w):
     v = V(PROP)
     rec = w.rec
-    srv = w.add_server('s', namespaces=list(NSS), async_handlers=False)
+    srv = w.add_server('s', namespaces=list(NSS),
+                       async_handlers=bool(cfg.get('async_handlers')))
 
     pending_beh = {}
     sid_names = {}
@@ -222,6 +241,19 @@ def _run_twin(case, cfg, instrumented, w):
     def plan(label, args, ev):
         if label[3] == 'ev':
             return [('ret', ['ok', args[1] if len(args) > 1 else None])]
+        if label[3] in ('shout', 'leave', 'join'):
+            ns, sid = label[2], args[0]
+            tok = args[1] if len(args) > 1 else None
+            if label[3] == 'shout':
+                return [('do', lambda: srv.emit('msg', tok, room='r1',
+                                                namespace=ns)),
+                        ('ret', 'shouted')]
+            if label[3] == 'leave':
+                return [('do', lambda: srv.leave_room(sid, 'r1',
+                                                      namespace=ns)),
+                        ('ret', 'left')]
+            return [('do', lambda: srv.enter_room(sid, 'r1', namespace=ns)),
+                    ('ret', 'joined')]
         if label[3] == 'connect':
             ns = label[2]
             sid = args[0]
@@ -249,7 +281,7 @@ def _run_twin(case, cfg, instrumented, w):
         return [('ret', None)]
     coroutine = bool(cfg.get('coroutine')) and w.mode == 'async'
     for ns in NSS:
-        for evn in ('connect', 'disconnect', 'ev'):
+        for evn in ('connect', 'disconnect', 'ev', 'shout', 'leave', 'join'):
             srv.on(evn, w.make_handler(('s', 'func', ns, evn), plan,
                                        coroutine=coroutine), namespace=ns)
     admin = None
@@ -362,6 +394,22 @@ def _run_twin(case, cfg, instrumented, w):
                 sc.peers[p].send_pkt(sio.EVENT, ns, id_,
                                      ['ev', tok] + ([b'\x00'] if binary
                                                     else []))
+        elif k == 'burst':
+            _, p, ns, evs = op
+            if p in sc.peers and sc.alive(p) and sc.sid(p, ns):
+                if cfg.get('async_handlers') and cfg['nadmin'] > 0 and \
+                        any(e[0] in ('leave', 'join') for e in evs):
+                    # concurrent handlers racing each other while reports
+                    # to connected admins are being sent: the reports are
+                    # real sends that suspend, so which handler wins such a
+                    # race may legitimately differ from the plain server -
+                    # the events are sent one at a time instead
+                    for evn, tok, id_ in evs:
+                        sc.peers[p].send_pkt(sio.EVENT, ns, id_, [evn, tok])
+                        w.settle()
+                else:
+                    sc.peers[p].post_pkts([(sio.EVENT, ns, id_, [evn, tok])
+                                           for evn, tok, id_ in evs])
         elif k == 'emit':
             _, ns, to, tag = op[:4]
             skip = sc.sid(op[4], ns) if len(op) > 4 and op[4] is not None \
